@@ -41,6 +41,9 @@ CHECKS = {
  "C05": ("exploration", "exhaustive enumeration of envelope interleavings (multiset permutations) driven by scripted peers against the real client and the real server, per-call observation oracle; wire-tap id-uniqueness monitor over long histories with barrier-released callers",
          "Every order-preserving merge of the per-call scripts of k<=3 (thorough: also 4) concurrent unary/stream calls is executed on a fresh connection in both directions, and each call or handler must observe exactly its own messages, header, trailer and status. Id allocation is monitored on the wire over 10^4 (quick) / 10^5 (thorough) calls with 64 callers starting together.",
          "Exhaustive for the listed script configurations only; goroutine schedules inside the client/server are sampled.", "DESIGN.md 2/C05"),
+ "C06": ("exploration", "online trace checking: per-(id, direction) protocol automata over the wire-tap logs of the re-run C01/C02/C03/C07/C11 workloads plus a directed rendezvous family (send parked across a cancel on a transport that does not consult the context)",
+         "Every client link history produced by a fixed-seed sample of the other checks' workloads (early returns, cancellations, errors, resets included) is projected per id and direction and must be accepted by automata transcribed from the README and the statement, including the end-of-history rule for trailers; the one ordering the statement singles out on the client side (nothing after the reset) is also forced deterministically.",
+         "Histories are those the workloads produced; the automata are my transcription of README.md.", "DESIGN.md 2/C06"),
 }
 NOT_YET = "check not built yet in this round (runtime-monitoring design in DESIGN.md section 2); will be claimed once its monitor exists"
 
